@@ -192,9 +192,17 @@ func Main(args []string) int {
 
 const tmpl = `#!/bin/sh
 # __MRO_JOB_NAME__
+# threads __MRO_THREADS__ mem __MRO_MEM_GB__ GB __MRO_MEM_MB__ MB per thread __MRO_MEM_GB_PER_THREAD__ __MRO_MEM_MB_PER_THREAD__
+# vmem __MRO_VMEM_GB__ __MRO_VMEM_MB__ __MRO_VMEM_KB__
+# account __MRO_ACCOUNT__
+# resources __MRO_RESOURCES__
 cd __MRO_JOB_WORKDIR__ || exit 7
 /usr/bin/env __MRO_CMD__ > __MRO_STDOUT__ 2> __MRO_STDERR__
 `
+
+// values that look like template parameters must come through like any other text
+var placeholders = []string{"__MRO_JOB_NAME__", "__MRO_THREADS__", "__MRO_STDOUT__", "__MRO_STDERR__", "__MRO_JOB_WORKDIR__",
+	"__MRO_CMD__", "__MRO_MEM_GB__", "__MRO_MEM_MB__", "__MRO_VMEM_GB__", "__MRO_ACCOUNT__", "__MRO_RESOURCES__"}
 
 // scripts: whole job scripts (RemoteJobManager.jobScript) with the string used
 // as argument, as environment value and inside the metadata path, executed by
@@ -202,9 +210,20 @@ cd __MRO_JOB_WORKDIR__ || exit 7
 func scripts(rows []Row, dir string, rep *Report) {
 	self, _ := os.Executable()
 	step := len(rows)/300 + 1
+	type item struct {
+		s   string
+		cls []string
+	}
+	var items []item
 	for i := 0; i < len(rows); i += step {
-		r := rows[i]
-		s := concrete(r.S)
+		items = append(items, item{concrete(rows[i].S), rows[i].S})
+	}
+	for _, ph := range placeholders {
+		items = append(items, item{"run" + ph, []string{"placeholder " + ph}}, item{ph + " x " + ph, []string{"placeholder " + ph}})
+	}
+	for _, it := range items {
+		r := Row{S: it.cls}
+		s := it.s
 		if s == "" {
 			continue
 		}
